@@ -37,6 +37,7 @@ func cmdRecord(args []string) int {
 	job := fs.String("job", "record", "")
 	noUnsafe := fs.Bool("nounsafe", true, "never AllowUnsafe(true)")
 	noStyles := fs.Bool("nostyles", false, "no style rules")
+	fixed := fs.String("recipes", "", "comma-separated shipped constructors to cycle through instead of random recipes (ugc,strict)")
 	fs.Parse(args)
 	kindList := []int{}
 	for _, k := range splitProps(*kinds) {
@@ -58,6 +59,12 @@ func cmdRecord(args []string) int {
 	index := []CallIndex{}
 	for s := 0; s < *sessions; s++ {
 		recipe := GenRecipe(rng, GenOpts{NoUnsafe: *noUnsafe, NoStyles: *noStyles})
+		if fl := splitProps(*fixed); len(fl) > 0 {
+			m := map[string]string{"ugc": "UGCPolicy", "strict": "StrictPolicy", "new": "NewPolicy"}[fl[s%len(fl)]]
+			c := Call{M: m}
+			c.norm()
+			recipe = Recipe{c}
+		}
 		sess := tw.BuildSession(recipe)
 		for _, d := range sess.BuildDiffs {
 			res.diverge("builder: %s", d)
